@@ -810,6 +810,17 @@ func Yield() {
 	t.do(o)
 }
 
+// WaitUntil blocks the calling (harness) thread until cond holds. cond reads
+// harness state; it may only go from false to true. The step touches no shared
+// object and carries no happens-before edge in the race build: a harness
+// thread that reacts to "the directive has returned" must not order the
+// caller's later actions before whatever it then releases.
+func WaitUntil(cond func() bool, label string) {
+	t := enter()
+	o := &op{arms: []arm{{kind: aSimple, obj: &object{id: -2000 - t.id, name: label}, label: "wait-until", enabled: cond}}}
+	t.do(o)
+}
+
 // GOMAXPROCS replaces runtime.GOMAXPROCS(0) in rewritten code.
 func GOMAXPROCS(n int) int {
 	if S != nil && S.cfg.GOMAXPROCS > 0 {
